@@ -22,7 +22,9 @@ TIMEOUT = {"quick": 1500, "thorough": 7200}
 RULE = (
     "recipes from vlib.gen.Gen (every public operation of the table, and compositions) each built and computed under "
     "variants {global default config (spec=None), explicit Spec equal to the default, other work_dir, intermediate_store "
-    "path, zarr_compressor None / explicit codec, reserved_mem 0, executor_name in the Spec, larger allowed_mem}. An "
+    "path, zarr_compressor None / explicit codec, reserved_mem 0, executor_name in the Spec, larger allowed_mem}; plus "
+    "memory-tight rechunks whose intermediate grid is rectilinear, computed with the executor named in the Spec being "
+    "single-threaded (baseline) / threads / processes. An "
     "evaluation = one (recipe, variant) outcome compared with the baseline variant; non-trivial = the recipe has a "
     "multi-block leaf and both outcomes were compared; distinct by hash of (recipe, variant)"
 )
@@ -39,13 +41,18 @@ VARIANTS = ["global_default", "explicit_default", "other_work_dir", "intermediat
 
 def shards(tier, seed):
     return [{"n": PER_SHARD[tier], "maxdim": 8 if tier == "quick" else 11, "depth": 4 if tier == "quick" else 6,
-             "watchdog_s": TIMEOUT[tier] - 30} for _ in range(NSHARDS[tier])]
+             "tight": 3 if tier == "quick" else 12, "watchdog_s": TIMEOUT[tier] - 30} for _ in range(NSHARDS[tier])]
 
 
-def spec_for(variant, wd):
+def spec_for(variant, wd, over=None):
     import cubed
 
     base = dict(work_dir=os.path.join(wd, "w"), allowed_mem="2GB", reserved_mem="100MB")
+    base.update(over or {})
+    if variant == "executor_threads":
+        return cubed.Spec(**dict(base, executor_name="threads", executor_options={"max_workers": 3}))
+    if variant == "executor_processes":
+        return cubed.Spec(**dict(base, executor_name="processes", executor_options={"max_workers": 2}))
     if variant == "explicit_default":
         return cubed.Spec(**base)
     if variant == "other_work_dir":
@@ -78,14 +85,14 @@ def run_variant(recipe, variant, wd):
             ctx.__enter__()
             spec = None
         else:
-            spec = spec_for(variant, wd)
+            spec = spec_for(variant, wd, recipe.get("spec_over"))
         env = gen.BuildEnv(spec, wd)
         with warnings.catch_warnings():
             warnings.simplefilter("ignore")
             vals = gen.cu_build(recipe, env)
             outs = [vals[i] for i in recipe["outputs"]]
             out["phase"] = "execute"
-            kw = {} if variant == "executor_in_spec" else {"executor": runner.make_executor("single-threaded")}
+            kw = {} if variant.startswith("executor_") else {"executor": runner.make_executor("single-threaded")}
             res = cubed.compute(*outs, **kw)
         out["results"] = [np.asarray(r) for r in res]
         out["phase"] = "done"
@@ -130,7 +137,43 @@ def compare_outcomes(recipe, np_vals, variant, base, got):
     return out
 
 
-EXTRA = ("outcomes_compared", "both_accepted", "both_refused", "numpy_checked")
+def tight_rechunk_recipe(rng, wd):
+    """A rechunk under a budget too small for copy chunks to span an axis, with source and target chunk sizes that do not
+    nest: its intermediate array has a rectilinear (irregular) chunk grid. Candidates are screened by looking at the plan."""
+    import math
+
+    import cubed
+
+    recipe = None
+    irregular = False
+    for attempt in range(10):
+        shape = [rng.randint(20, 60), rng.randint(20, 60)]
+        src = [rng.randint(3, 12), rng.randint(3, 12)]
+        tgt = [rng.randint(3, 12), rng.randint(3, 12)]
+        dt = rng.choice(["float64", "int32"])
+        item = 8 if dt == "float64" else 4
+        allowed = int(item * max(math.prod(src), math.prod(tgt)) * rng.choice([5.5, 6, 8, 12])) + 8
+        recipe = {"nodes": [{"in": [], "op": "leaf", "p": {"chunks": src, "dtype": dt, "seed": rng.getrandbits(40), "shape": shape, "src": "from_array"}},
+                            {"in": [0], "op": "rechunk", "p": {"chunks": tgt}}], "outputs": [1],
+                  "spec_over": {"allowed_mem": allowed, "reserved_mem": 0}}
+        try:
+            with warnings.catch_warnings():
+                warnings.simplefilter("ignore")
+                vals = gen.cu_build(recipe, gen.BuildEnv(spec_for("explicit_default", os.path.join(wd, "screen"), recipe["spec_over"]), wd))
+                fp = vals[1].plan(optimize_graph=False)
+            for _, d in fp.dag.nodes(data=True):
+                t = d.get("target")
+                ch = getattr(t, "chunks", None)
+                if ch and any(isinstance(c, (tuple, list)) and len(set(c[:-1])) > 1 for c in ch):
+                    irregular = True
+            if irregular and fp.num_tasks <= 500:
+                break
+        except Exception:
+            continue
+    return recipe, irregular
+
+
+EXTRA = ("tight_rechunks_with_irregular_grid", "executor_matrix_outcomes", "outcomes_compared", "both_accepted", "both_refused", "numpy_checked")
 
 
 def run_shard(spec, workdir):
@@ -170,6 +213,32 @@ def run_shard(spec, workdir):
         shutil.rmtree(wd, ignore_errors=True)
         if k < 1 and spec.get("shard", 0) == 0:
             res["samples"].append({"recipe": recipe, "variants": variants})
+    # executor matrix on memory-tight rechunks (rectilinear intermediates): the executor named in the Spec must not
+    # change acceptance or values
+    for k in range(spec.get("tight", 3)):
+        wd = os.path.join(workdir, f"t{k}")
+        recipe, irregular = tight_rechunk_recipe(rng, wd)
+        if recipe is None:
+            continue
+        np_vals = gen.np_eval(recipe)
+        if irregular:
+            res["counters"]["tight_rechunks_with_irregular_grid"] += 1
+        base = run_variant(recipe, "explicit_default", os.path.join(wd, "base"))
+        for v in ("executor_threads", "executor_processes"):
+            got = run_variant(recipe, v, os.path.join(wd, v))
+            res["evaluations"] += 1
+            res["counters"]["outcomes_compared"] += 1
+            res["counters"]["executor_matrix_outcomes"] += 1
+            _rc.bump(res["hist"]["config"], v)
+            if got["exc"] is None and base["exc"] is None:
+                res["counters"]["both_accepted"] += 1
+            viols = compare_outcomes(recipe, np_vals, v, base, got)
+            for x in viols:
+                x["property"] = PROPERTY
+                x["case"] = {"recipe": recipe, "variant": v}
+            res["violations"].extend(viols)
+            res["nontrivial"].append(gen.rhash([recipe, v]))
+        shutil.rmtree(wd, ignore_errors=True)
     return res
 
 
@@ -196,6 +265,7 @@ def finalize(tier, merged):
         "floors": [
             ("(recipe, variant) outcomes compared with the baseline variant", c.get("outcomes_compared", 0), 1400 if tier == "quick" else 14000),
             ("of which both accepted and values compared", c.get("both_accepted", 0), 800 if tier == "quick" else 8000),
+            ("memory-tight rechunks with a rectilinear intermediate grid run under the executor matrix", c.get("tight_rechunks_with_irregular_grid", 0), 20 if tier == "quick" else 200),
             ("distinct operations of the table exercised", len(merged["hist"].get("ops", {})), 100),
         ],
         "assumptions": ASSUMPTIONS,
